@@ -8,7 +8,7 @@ Import ListNotations.
 Open Scope Z_scope.
 
 Inductive case19 :=
-| CLoad (sort : bool) (listing : list fsn)
+| CLoad (sort : bool) (root : path) (listing : list fsn)
 | CEntry (name : text) (is_dir : bool) (size : option Z) (mdate : option mtime) (data0 : dict)
 | CDeser (data : dict).
 
@@ -16,8 +16,8 @@ Definition sx_ofse (o : option fse) : sx := sx_opt sx_fse o.
 
 Definition run19 (c : case19) : sx :=
   match c with
-  | CLoad s l =>
-      let f := load s l in
+  | CLoad s root l =>
+      let f := load_tree_from_fs s root l in    (* the source-shaped function; = [load s l] by FsVisitProofs *)
       L [ sx_forest f; sx_entries (to_list f); sx_opt sx_forest (save_load f) ]
   | CEntry n d s m d0 =>
       match mk_entry n d s m with
